@@ -189,12 +189,14 @@ def run_impl(case, mode):
         return {'results': out}
 
     W, H = build()
+    modeflags = [bool(W[0]._conserve_spin), bool(W[0]._conserve_number)]
     frame_bad = []
     steps = []
     for n, op in enumerate(case['ops']):
         wbefore = [_wsnap(w) for w in W]
         hbefore = [_hsnap(h) for h in H]
         wstates = [fqeio.read_state(w) for w in W]
+        wflags = [[bool(w._conserve_spin), bool(w._conserve_number)] for w in W]
         flag = bool(fqe.settings.use_accelerated_code)
         try:
             tk, ti, res = _do(op, W, H, fqe, copy, numpy)
@@ -207,10 +209,10 @@ def run_impl(case, mode):
             if _hsnap(h) != hbefore[i]:
                 frame_bad.append('step %d %s changed Hamiltonian #%d' % (n, op, i))
         if op[0] != 'flip':
-            steps.append({'op': op, 'wstates': wstates, 'flag': flag, 'res': res})
+            steps.append({'op': op, 'wstates': wstates, 'flag': flag, 'res': res, 'wflags': wflags})
     # copies evolve independently of their source
     fqe.settings.use_accelerated_code = start_flag
-    return {'frame_bad': frame_bad[:5], 'steps': steps}
+    return {'frame_bad': frame_bad[:5], 'steps': steps, 'modeflags': modeflags}
 
 
 def expected(model, case):
@@ -255,15 +257,30 @@ def extra_checks(bdir, model, rng, tier, stats):
                 continue
             for n, (s, fr) in enumerate(zip(r1['steps'], r2['results'])):
                 if not _close(s['res'], fr):
+                    fid = 'F-C11-flags-dropped' if _operand_lost_flags(s, r1.get('modeflags')) else None
                     out.append(('result of step %d %s depends on history: in-history %s, fresh %s' %
                                 (n, s['op'], str(s['res'])[:120], str(fr)[:120]),
-                                {'property': PID, 'mode': mode, 'case': cases[ci], 'step': n, 'in_history': s['res'], 'fresh': fr}, None))
+                                {'property': PID, 'mode': mode, 'case': cases[ci], 'step': n, 'in_history': s['res'], 'fresh': fr,
+                                 'finding_class': fid}, fid))
                     break
             if r1['frame_bad']:
                 out.append((r1['frame_bad'][0], {'property': PID, 'mode': mode, 'case': cases[ci], 'frame': r1['frame_bad']}, None))
         if len(out) > 4:
             break
     return out[:5]
+
+
+def _operand_lost_flags(step, modeflags):
+    """finding class F-C11-flags-dropped: a wavefunction the failing step READS carries symmetry flags that differ
+    from those of the wavefunction family of the case (they were reset to the defaults by empty_copy(), by
+    apply(SparseHamiltonian) or by a single-term time_evolve earlier in the history)"""
+    op = step['op']
+    reads = {'apply': [1], 'apply_op': [1], 'evolve': [1], 'evolve_inplace': [1], 'rdm': [1, 3], 'expect': [1, 3],
+             'to_cirq': [1], 'norm': [1], 'add': [1, 2], 'axpy': [1, 2], 'scale': [1], 'copy': [1], 'empty_copy': [1]}.get(op[0], [])
+    fl = step.get('wflags')
+    if not fl or not modeflags:
+        return False
+    return any(fl[op[i]] != modeflags for i in reads if i < len(op))
 
 
 def classify(case, mode, bad, got, exp):
